@@ -20,6 +20,7 @@ const (
 	SpMap     = "map"     // map[B<i>]uint64
 	SpGeneric = "generic" // G[B<i>]
 	SpExt     = "ext"     // ext.V<i>
+	SpIface   = "iface"   // I<i>: named interfaces with one common method set - distinct types whose values are assignable to one another
 	SpTime    = "time"    // time.Time (a type the generated code has locals of: startTime)
 )
 
